@@ -665,7 +665,7 @@ package db
 //@ ghost n int, offs seq, idx seq, roffs seq, ridx seq
 //@ requires wfname(domain, n, offs, idx) && revoffs(domain, n, offs, roffs, ridx) && len(mtype) == 2 && r != nil && context != nil && dyntype(context) == ptrtag("rdb.Context")
 // (facts of the package's initialisers)
-//@ requires len(exactMatchKeyElement) == 1 && len(wildcardKeyElement) == 1
+//@ requires len(exactMatchKeyElement) == 1 && len(wildcardKeyElement) == 1 && !fresh(exactMatchKeyElement) && !fresh(wildcardKeyElement)
 // (C02/C04, functional part) a map is returned only as the value stored under the very key that was probed last:
 // the closest key equals the probe byte for byte. A closest key that merely shares labels with the name (a parent's
 // exact map, a sibling) is never taken for the name's map.
@@ -673,6 +673,11 @@ package db
 //@ ensures[exact-hit] mapID != nil ==> len(mapProbeFound) == len(mapProbeKey) && forall(j, 0, len(mapProbeKey), mapProbeFound[j] == mapProbeKey[j])
 //@ ensures[its-value] mapID != nil ==> ref(mapID) == ref(mapProbeVal) && off(mapID) == off(mapProbeVal) + 4
 //@ ensures[fail] err != nil ==> mapID == nil
-//@ loop 0 invariant[nomap] mapID == nil
+// ... and only the name itself is looked up under the exact-match element: every shorter (parent) key carries the
+// wildcard element.
+//@ ensures[parents-wild] mapID != nil && len(mapProbeKey) != len(domain) + 3 ==> len(mapProbeKey) >= 1 && mapProbeKey[len(mapProbeKey)-1] == wildcardKeyElement[0]
+//@ before rdbdriver.findClosest#0 assert[marked] k[len(k)-1] == suffix[0]
+//@ loop 0 invariant[nomap] mapID == nil && allocated(k)
+//@ loop 0 invariant[kind] (suffix == exactMatchKeyElement && len(k) == len(reversedZone) + 3) || suffix == wildcardKeyElement
 //@ call reverseZoneName#0 ghost n = n; offs = offs; idx = idx; roffs = roffs; ridx = ridx
 //@ loop 0 invariant[buf] prefixLen == 2 && len(suffix) == 1 && len(reversedZone) == len(domain) && cap(k) >= len(reversedZone) + 3 && len(k) >= prefixLen + 1 + len(suffix) && len(k) <= len(reversedZone) + 3 && fresh(k)
